@@ -2,7 +2,7 @@
 Scenario on the virtual loop: the REAL TimerQueue (worker greenlet, gevent Event, heapq) with
 symbolic deadlines, symbolic gaps between Schedule calls and symbolic cancel instants."""
 import gevent
-from symex.values import (check, cover, assume, sand, sor, snot, implies, siff, fresh_real, fresh_bool, time_const,
+from symex.values import (check, cover, assume, sand, sor, snot, implies, siff, fresh_real, fresh_bool, time_const, choose,
                           is_concrete, SymReal, Exact, lift_real, hdecide)
 from symex import vtime, stubs
 import scales.timer_queue as tqm
@@ -23,7 +23,7 @@ INFO = dict(
   stubs=['virtual-time loop (3.1)', 'time source = loop clock', 'math.ceil/float/int on symbolic reals as module globals of scales.timer_queue (3.8)'],
   assumptions=['A1 zero-time code', 'A2 exact reals', 'A3 equal-time timers fire in registration order'],
 )
-EXPECT_COVERS = ['bulk-cancel-while-worker-sleeps', 'deadline-in-past', 'new-head-while-sleeping', 'equal-rounded-deadlines', 'cancel-before-deadline',
+EXPECT_COVERS = ['schedule-one-tick-after-previous', 'bulk-cancel-while-worker-sleeps', 'deadline-in-past', 'new-head-while-sleeping', 'equal-rounded-deadlines', 'cancel-before-deadline',
                  'cancel-current-head', 'same-slice-schedules', 'cancel-too-late']
 
 
@@ -102,6 +102,11 @@ def make_body(job):
       if i > 0 or True:
         if hdecide(g > 0):
           gevent.sleep(g)
+        elif i > 0 and choose('yield_one_tick%d' % i, 2):
+          # no time passes, but the caller yields to the scheduler once: the worker has been woken by the previous
+          # Schedule and is between looking at the head and going to sleep
+          cover('schedule-one-tick-after-previous')
+          gevent.sleep(0)
         else:
           cover('same-slice-schedules')
       di = fresh_real('d%d' % i, vtime.T0 - 1, vtime.T0 + 3)
